@@ -152,9 +152,7 @@ def uses_media_file(func):
             if not stream:
                 # print(f'Stream {sdir} not found')
                 return flask.make_response(f'Stream {sdir} not found', 404)
-            mf = MediaFile.get(stream_pk=stream.pk, name=filename.lower())
-            if not mf:
-                mf = MediaFile.get(stream_pk=stream.pk, name=f'{filename.lower()}.mp4')
+            mf = MediaFile.get_by_url_name(stream.pk, filename)
             if not mf:
                 # print(f'MediaFile {sdir}/{filename} not found')
                 return flask.make_response(f'MediaFile {sdir}/{filename} not found', 404)
